@@ -246,7 +246,7 @@ pub fn run_merge_many(a: &Args) -> Result<(), String> {
     Ok(())
 }
 pub fn gen_merge_many(r: &mut Rng) -> String {
-    let base: u32 = [0u32, 49_990, 99_990, 4_294_899_990, 4_294_917_000][r.below(5) as usize];
+    let base: u32 = [0u32, 49_990, 99_990, 4_294_899_990, 4_294_917_000, 4_294_940_000, 4_294_949_990, 4_294_960_000, 4_294_967_200][r.below(9) as usize];
     let mut s = String::from("streams=");
     for k in 0..r.range(1, 4) {
         if k > 0 { s.push('|'); }
@@ -255,7 +255,7 @@ pub fn gen_merge_many(r: &mut Rng) -> String {
             let len = r.range(1, 30) as u32;
             if p.checked_add(len).is_none() { break; }
             s.push_str(&format!("{},{},{};", p, p + len, r.range(1, 4)));
-            p = p + len + r.below(10) as u32;
+            p = match (p + len).checked_add(r.below(10) as u32) { Some(q) => q, None => break };
         }
     }
     s
